@@ -1,5 +1,5 @@
 SPECIFICATION Spec
-CONSTANTS MaxPages = 4
+CONSTANTS MaxPages = 5
  EndAt = "data"
  Lens = {1,2,4}
  Chunk = 4
